@@ -20,6 +20,7 @@
 #define _GNU_SOURCE
 #endif
 #include <sys/mman.h>
+#include <pthread.h>
 #include <stddef.h>
 #include <stdlib.h>
 #include <string.h>
@@ -273,6 +274,10 @@ static void ovr_step_alloc(const char* ep, long n, size_t al) {
   if (n < 0 && strncmp(ep, "new", 3) == 0) { ovr_step_failnew(ep, al); return; }
   if (ovr_streq(ep, "valloc") || ovr_streq(ep, "pvalloc")) al = (size_t)ovr_page;
   size_t req = ovr_req(ep, n);
+  if (ovr_streq(ep, "strndup")) {     /* every second time the copy is truncated at exactly a block size (8, 16, 32, ... characters + the terminator) */
+    static unsigned kk = 0; static const size_t cls[] = {8, 16, 32, 48, 64, 80, 128, 1024};
+    if ((kk++ % 2) == 0) req = cls[(kk / 2) % 8] + 1;
+  }
   if (ovr_is_str(ep) && !ovr_streq(ep, "realpath")) {
     if (req < 1) req = 1;
     if (req > sizeof(ovr_strsrc)) req = sizeof(ovr_strsrc);
@@ -405,6 +410,33 @@ static void ovr_run_program(const char* path) {
   }
 }
 
+/* a thread obtains over-aligned blocks (pointers at an offset inside their block) and exits; the main thread then queries, resizes and
+   releases them: they are served like any other pointer (C19: one allocator behind every entry point, whoever calls it) */
+static void* ovr_episode_thread(void* arg) {
+  (void)arg;
+  ovr_step_alloc("posix_memalign", 40, 64);
+  ovr_step_alloc("memalign", 100, 128);
+  ovr_step_alloc("aligned_alloc", 192, 64);
+  ovr_step_alloc("posix_memalign", 40, 64);
+  return NULL;
+}
+static void ovr_thread_episode(void) {
+  for (int i = 0; i < OVR_MAXB; i++) if (ovr_b[i].p) { vf_logf("{\"e\":\"abandon\",\"id\":%d}", ovr_b[i].id); vf_log_line_end(); }
+  memset(ovr_b, 0, sizeof(ovr_b));
+  ovr_base += 16; ovr_nextrid = 1; ovr_pairs_run++;
+  vf_logf("{\"e\":\"pair\",\"ae\":\"posix_memalign\",\"re\":\"free\",\"flavour\":\"c\",\"std\":true}"); vf_log_line_end();
+  int saved = ovr_count_used; ovr_count_used = 0;       /* (the blocks change hands: the count of the calling thread's heap says nothing here) */
+  pthread_t th;
+  if (pthread_create(&th, NULL, ovr_episode_thread, NULL) == 0) {
+    pthread_join(th, NULL);
+    for (int rid = 1; rid <= 4; rid++) ovr_step_release("malloc_usable_size", rid, 0, 0);
+    ovr_step_release("realloc", 1, 41, 0);            /* -> block 5 */
+    ovr_step_release("malloc_usable_size", 5, 0, 0);
+    ovr_step_release("free", 2, 0, 0); ovr_step_release("free", 3, 0, 0); ovr_step_release("free", 4, 0, 0); ovr_step_release("free", 5, 0, 0);
+  }
+  ovr_count_used = saved;
+}
+
 static void ovr_setup_realpath(const char* dir) {
   /* an existing directory reached through a non-canonical spelling */
   size_t k = strlen(dir);
@@ -438,6 +470,7 @@ static int ovr_main(int argc, char** argv, const char* lang) {
   ovr_watchdog(wd);
   ovr_log_cfg(mode, lang);
   ovr_run_program(prog);
+  ovr_thread_episode();
   vf_logf("{\"e\":\"end\",\"pairs\":%d}", ovr_pairs_run); vf_log_line_end();
   vf_log_close();
   return 0;
